@@ -1,0 +1,9 @@
+//go:build verif
+
+package generator
+
+// Verification hook (build tag verif): re-exports existing identifiers only.
+
+// VerifC39Stop calls the unexported stop: cancels the contexts of all workers
+// (what a process exit does to the pool's generator goroutine).
+func (s *Scheduler) VerifC39Stop() { s.stop() }
